@@ -88,7 +88,12 @@ structure Transform where
 /-- `krt.Fetch(ctx, sec, filters...)`: the objects of `sec` that match. -/
 def fetch (sec : List Obj) (i : Obj) (f : FetchSpec) : List Obj := sec.filter (fun o => f.matches i o)
 
-def sortStrings (l : List String) : List String := l.mergeSort (fun a b => decide (a ≤ b))
+def insertSorted (x : String) : List String → List String
+  | [] => [x]
+  | y :: l => if x ≤ y then x :: y :: l else y :: insertSorted x l
+
+/-- insertion sort (structural recursion, so that closed examples evaluate in the kernel) -/
+def sortStrings (l : List String) : List String := l.foldr insertSorted []
 
 /-- Canonical rendering of one fetch result (krt's `List` order is undefined: sorted). -/
 def renderFetch (l : List Obj) : String :=
